@@ -67,17 +67,59 @@ const (
 
 // ---------------------------------------------------------------- synthetic format
 
-// synthItem: a raw leaf at [Start,Start+Len) of the current decoder's buffer, or (Sub != nil)
-// a length-delimited sub-decode (FieldFormatLen: FillGaps:true, IsRoot:false) of that range.
+// synthItem: one step of the synthetic decoder (format verif_c04). Kinds:
+//
+//	'r' a:b      SeekAbs(a); raw leaf of b bits
+//	'+' +b       raw leaf of b bits at the current position
+//	'>' >n       SeekRel(n): bits that no field references (a hole, unless something else covers them)
+//	'^' ^a       SeekAbs(a)
+//	'z' z        zero-length synthetic value at the current position (FieldValueUint)
+//	'L' a:b{…}   SeekAbs(a); FieldFormatLen of b bits (FillGaps:true on the sub-range, IsRoot:false)
+//	'F' F{…}     FieldFormat at the current position (sub-format WITHOUT own gap filling; its
+//	             Range is [start, max field stop) and may contain holes); position advances by Range.Len
+//	'T' T{…}     TryFieldFormat, error ignored
+//	'S' S{…}     FieldStruct (plain compound, same decoder)   'A' A{…}  FieldArray
+//
+// Positions inside L/F/T are relative to the sub-decode's own buffer.
 type synthItem struct {
+	Kind       byte
 	Start, Len int64
 	Sub        []synthItem
-	IsSub      bool
 }
 
 type synthIn struct{ Items []synthItem }
 
 var synthGroup *decode.Group
+
+func synthDecode(d *decode.D, items []synthItem) {
+	for i, it := range items {
+		name := "f" + strconv.Itoa(i)
+		switch it.Kind {
+		case 'r':
+			d.SeekAbs(it.Start)
+			d.FieldRawLen(name, it.Len)
+		case '+':
+			d.FieldRawLen(name, it.Len)
+		case '>':
+			d.SeekRel(it.Len)
+		case '^':
+			d.SeekAbs(it.Start)
+		case 'z':
+			d.FieldValueUint(name, uint64(i))
+		case 'L':
+			d.SeekAbs(it.Start)
+			d.FieldFormatLen(name, it.Len, synthGroup, synthIn{Items: it.Sub})
+		case 'F':
+			d.FieldFormat(name, synthGroup, synthIn{Items: it.Sub})
+		case 'T':
+			_, _, _ = d.TryFieldFormat(name, synthGroup, synthIn{Items: it.Sub})
+		case 'S':
+			d.FieldStruct(name, func(d *decode.D) { synthDecode(d, it.Sub) })
+		case 'A':
+			d.FieldArray(name, func(d *decode.D) { synthDecode(d, it.Sub) })
+		}
+	}
+}
 
 func init() {
 	f := &decode.Format{Name: "verif_c04", RootArray: true, RootName: "synth", DefaultInArg: synthIn{}}
@@ -85,44 +127,75 @@ func init() {
 	f.DecodeFn = func(d *decode.D) any {
 		var in synthIn
 		d.ArgAs(&in)
-		for _, it := range in.Items {
-			d.SeekAbs(it.Start)
-			if it.IsSub {
-				d.FieldFormatLen("sub", it.Len, synthGroup, synthIn{Items: it.Sub})
-			} else {
-				d.FieldRawLen("f", it.Len)
-			}
-		}
+		synthDecode(d, in.Items)
 		return nil
 	}
 }
 
-// "<a>:<b>" | "<a>:<b>{items}"  separated by ','
+func parseNum(s string) (int64, string, bool) {
+	i := 0
+	for i < len(s) && s[i] >= '0' && s[i] <= '9' {
+		i++
+	}
+	if i == 0 {
+		return 0, s, false
+	}
+	n, err := strconv.ParseInt(s[:i], 10, 64)
+	return n, s[i:], err == nil
+}
+
+// items separated by ',' (grammar above); returns the unparsed rest
 func parseSynth(s string) ([]synthItem, string, error) {
 	var items []synthItem
+	bad := func() ([]synthItem, string, error) { return nil, "", fmt.Errorf("bad item at %q", s) }
+	parseSub := func() ([]synthItem, bool) {
+		if len(s) == 0 || s[0] != '{' {
+			return nil, false
+		}
+		sub, rest, err := parseSynth(s[1:])
+		if err != nil || len(rest) == 0 || rest[0] != '}' {
+			return nil, false
+		}
+		s = rest[1:]
+		return sub, true
+	}
 	for len(s) > 0 && s[0] != '}' {
-		i := 0
-		for i < len(s) && (s[i] == ':' || s[i] == '-' || (s[i] >= '0' && s[i] <= '9')) {
-			i++
-		}
-		ps := strings.Split(s[:i], ":")
-		if len(ps) != 2 {
-			return nil, "", fmt.Errorf("bad item %q", s)
-		}
-		a, e1 := strconv.ParseInt(ps[0], 10, 64)
-		b, e2 := strconv.ParseInt(ps[1], 10, 64)
-		if e1 != nil || e2 != nil {
-			return nil, "", fmt.Errorf("bad item %q", s)
-		}
-		it := synthItem{Start: a, Len: b}
-		s = s[i:]
-		if len(s) > 0 && s[0] == '{' {
-			sub, rest, err := parseSynth(s[1:])
-			if err != nil || len(rest) == 0 || rest[0] != '}' {
-				return nil, "", fmt.Errorf("bad sub %q", s)
+		var it synthItem
+		var ok bool
+		switch c := s[0]; {
+		case c == '+' || c == '>':
+			it.Kind = c
+			if it.Len, s, ok = parseNum(s[1:]); !ok {
+				return bad()
 			}
-			it.IsSub, it.Sub = true, sub
-			s = rest[1:]
+		case c == '^':
+			it.Kind = c
+			if it.Start, s, ok = parseNum(s[1:]); !ok {
+				return bad()
+			}
+		case c == 'z':
+			it.Kind, s = c, s[1:]
+		case c == 'F' || c == 'T' || c == 'S' || c == 'A':
+			it.Kind, s = c, s[1:]
+			if it.Sub, ok = parseSub(); !ok {
+				return bad()
+			}
+		case c >= '0' && c <= '9':
+			it.Kind = 'r'
+			if it.Start, s, ok = parseNum(s); !ok || len(s) == 0 || s[0] != ':' {
+				return bad()
+			}
+			if it.Len, s, ok = parseNum(s[1:]); !ok {
+				return bad()
+			}
+			if len(s) > 0 && s[0] == '{' {
+				it.Kind = 'L'
+				if it.Sub, ok = parseSub(); !ok {
+					return bad()
+				}
+			}
+		default:
+			return bad()
 		}
 		items = append(items, it)
 		if len(s) > 0 && s[0] == ',' {
@@ -157,6 +230,19 @@ func parseJob(s string) (job, error) {
 		return job{}, fmt.Errorf("bad job %q", s)
 	}
 	return job{path: ps[0], format: ps[1], variant: ps[2], force: ps[3] == "f"}, nil
+}
+
+// inputPath: "corpus/…" are inputs kept in /verif/corpus (minimal files that are not part of
+// the repository's testdata), everything else is relative to the repository
+func inputPath(p string) string {
+	if strings.HasPrefix(p, "corpus/") {
+		d := os.Getenv("VERIF_DIR")
+		if d == "" {
+			d = "/verif"
+		}
+		return filepath.Join(d, p)
+	}
+	return filepath.Join(repoDir(), p)
 }
 
 func repoDir() string {
@@ -220,6 +306,31 @@ func collect(site *decode.Value) (fields []ranges.Range, gapVals []*decode.Value
 	}
 	rec(site, 0)
 	return fields, gapVals
+}
+
+// collectAll: every leaf reachable in the site's buffer, split only by the gap flag — no
+// matter below which value fq attached a gap field or how FillGaps grouped the leaves
+func collectAll(site *decode.Value) (fields, gaps []ranges.Range) {
+	var rec func(v *decode.Value)
+	rec = func(v *decode.Value) {
+		if v != site && v.IsRoot {
+			return
+		}
+		switch vv := v.V.(type) {
+		case *decode.Compound:
+			for _, c := range vv.Children {
+				rec(c)
+			}
+		default:
+			if isGap(v) {
+				gaps = append(gaps, v.Range)
+			} else {
+				fields = append(fields, v.Range)
+			}
+		}
+	}
+	rec(site)
+	return fields, gaps
 }
 
 func bitLen(br bitio.ReadAtSeeker) (int64, error) { return bitiox.Len(br) }
@@ -288,7 +399,7 @@ func runJob(j job, e *emitter) {
 			input = []byte{}
 		}
 	} else {
-		b, err := os.ReadFile(filepath.Join(repoDir(), j.path))
+		b, err := os.ReadFile(inputPath(j.path))
 		if err != nil {
 			e.Stat("bad_jobs", 1)
 			return
@@ -468,6 +579,17 @@ func runJob(j job, e *emitter) {
 				key += " " + rs
 			}
 			e.Case(op, fmtRanges(gaps, s.base))
+			if s.root && opName == "gaps" {
+				// the property itself on the whole buffer, independent of how fq groups leaves:
+				// all non-gap leaves reachable in this buffer against all gap fields in it
+				af, ag := collectAll(s.v)
+				cop := fmt.Sprintf("coverall 0:%d %s", s.total, note)
+				if x := fmtRanges(af, s.base); x != "-" {
+					cop += " " + x
+				}
+				e.Case(cop, fmtRanges(ag, s.base))
+				e.Stat("root_buffers_cover_checked", 1)
+			}
 			if len(fields) >= 2 {
 				h := fnv.New64a()
 				h.Write([]byte(key))
@@ -737,6 +859,10 @@ func mergePart(o *hlib.Out, p string) {
 
 // ---------------------------------------------------------------- job generation
 
+const corpusDir = "~corpus"
+
+var extFormat = map[string]string{".mkv": "matroska", ".cmo3": "caff"}
+
 func listFiles() map[string][]string {
 	root := filepath.Join(repoDir(), "format")
 	byDir := map[string][]string{}
@@ -753,6 +879,18 @@ func listFiles() map[string][]string {
 		byDir[dir] = append(byDir[dir], rel)
 		return nil
 	})
+	// minimal inputs kept in /verif/corpus/C04/inputs (shapes no testdata file has); always used
+	vd := os.Getenv("VERIF_DIR")
+	if vd == "" {
+		vd = "/verif"
+	}
+	if es, err := os.ReadDir(filepath.Join(vd, "corpus/C04/inputs")); err == nil {
+		for _, en := range es {
+			if !en.IsDir() && !strings.ContainsAny(en.Name(), " \t|@#") {
+				byDir[corpusDir] = append(byDir[corpusDir], "corpus/C04/inputs/"+en.Name())
+			}
+		}
+	}
 	for _, fs := range byDir {
 		sort.Strings(fs)
 	}
@@ -785,12 +923,12 @@ func genJobs(r *hlib.Rand, thorough bool) []job {
 			k := r.Intn(i + 1)
 			fs[i], fs[k] = fs[k], fs[i]
 		}
-		if len(fs) > perDir {
+		if len(fs) > perDir && d != corpusDir {
 			fs = fs[:perDir]
 		}
 		sort.Strings(fs)
 		for _, p := range fs {
-			b, err := os.ReadFile(filepath.Join(repoDir(), p))
+			b, err := os.ReadFile(inputPath(p))
 			if err != nil {
 				continue
 			}
@@ -813,6 +951,9 @@ func genJobs(r *hlib.Rand, thorough bool) []job {
 				}
 				return ""
 			})
+			if f, ok := extFormat[filepath.Ext(p)]; ok && d == corpusDir {
+				add(f)
+			}
 			var own []string
 			for _, n := range names {
 				if n == d || strings.HasPrefix(n, d+"_") {
@@ -877,15 +1018,27 @@ func genJobs(r *hlib.Rand, thorough bool) []job {
 func fmtSynth(items []synthItem) string {
 	var ps []string
 	for _, it := range items {
-		s := fmt.Sprintf("%d:%d", it.Start, it.Len)
-		if it.IsSub {
-			s += "{" + fmtSynth(it.Sub) + "}"
+		var s string
+		switch it.Kind {
+		case 'r':
+			s = fmt.Sprintf("%d:%d", it.Start, it.Len)
+		case 'L':
+			s = fmt.Sprintf("%d:%d{%s}", it.Start, it.Len, fmtSynth(it.Sub))
+		case '+', '>':
+			s = fmt.Sprintf("%c%d", it.Kind, it.Len)
+		case '^':
+			s = fmt.Sprintf("^%d", it.Start)
+		case 'z':
+			s = "z"
+		default:
+			s = fmt.Sprintf("%c{%s}", it.Kind, fmtSynth(it.Sub))
 		}
 		ps = append(ps, s)
 	}
 	return strings.Join(ps, ",")
 }
 
+// randItems: fields at arbitrary (overlapping, unordered) absolute ranges, nested FieldFormatLen
 func randItems(r *hlib.Rand, total int64, depth int) []synthItem {
 	n := r.Range(0, 6)
 	var items []synthItem
@@ -906,13 +1059,79 @@ func randItems(r *hlib.Rand, total int64, depth int) []synthItem {
 				l = min(l, total-s)
 			}
 		}
-		it := synthItem{Start: s, Len: l}
+		it := synthItem{Kind: 'r', Start: s, Len: l}
 		if depth < 2 && l > 0 && r.Intn(4) == 0 {
-			it.IsSub, it.Sub = true, randItems(r, l, depth+1)
+			it.Kind, it.Sub = 'L', randItems(r, l, depth+1)
 		}
 		items = append(items, it)
 	}
 	return items
+}
+
+// randScript: a decoder that works front to back the way real ones do — fields one after the
+// other, seeks over bits nothing references, zero-length values (also right after a seek), and
+// sub-formats WITHOUT own gap filling (FieldFormat/TryFieldFormat) directly after a field, whose
+// decoders skip bits themselves, at several nesting depths, mixed with plain structs/arrays and
+// length-delimited sub-decodes. Returns the items, the position after them and the largest stop.
+func randScript(r *hlib.Rand, depth int, pos0 int64) (items []synthItem, pos, maxStop int64) {
+	pos, maxStop = pos0, pos0
+	field := func(l int64) {
+		items = append(items, synthItem{Kind: '+', Len: l})
+		pos += l
+		maxStop = max(maxStop, pos)
+	}
+	skipLens := []int64{1, 1, 2, 7, 8, 8, 9, 16, 32}
+	n := r.Range(1, 6)
+	for i := 0; i < n; i++ {
+		switch k := r.Intn(12); {
+		case k < 4:
+			field(int64(r.Range(1, 24)))
+		case k == 4:
+			field(0)
+		case k == 5:
+			items = append(items, synthItem{Kind: 'z'})
+		case k == 6 || k == 7:
+			s := skipLens[r.Intn(len(skipLens))]
+			items = append(items, synthItem{Kind: '>', Len: s})
+			pos += s
+			if r.Intn(2) == 0 { // seek -> zero-length value -> real field
+				items = append(items, synthItem{Kind: 'z'})
+			}
+			if r.Intn(4) != 0 {
+				field(int64(r.Range(1, 16)))
+			}
+		case k < 10 && depth < 3:
+			// sub-format without own gap filling, adjacent to whatever came before
+			if r.Intn(3) != 0 && (len(items) == 0 || items[len(items)-1].Kind != '+') {
+				field(int64(r.Range(1, 16)))
+			}
+			sub, _, subMax := randScript(r, depth+1, 0)
+			kind := byte('F')
+			if r.Intn(3) == 0 {
+				kind = 'T'
+			}
+			items = append(items, synthItem{Kind: kind, Sub: sub})
+			pos += subMax
+			maxStop = max(maxStop, pos)
+		case k == 10 && depth < 3:
+			sub, p2, m2 := randScript(r, depth+1, pos)
+			kind := byte('S')
+			if r.Intn(2) == 0 {
+				kind = 'A'
+			}
+			items = append(items, synthItem{Kind: kind, Sub: sub})
+			pos, maxStop = p2, max(maxStop, m2)
+		case depth < 3:
+			l := int64(r.Range(1, 40))
+			sub, _, _ := randScript(r, depth+1, 0)
+			items = append(items, synthItem{Kind: 'L', Start: pos, Len: l, Sub: sub})
+			pos += l
+			maxStop = max(maxStop, pos)
+		default:
+			field(int64(r.Range(1, 8)))
+		}
+	}
+	return items, pos, maxStop
 }
 
 func synthJobs(r *hlib.Rand, n int) []job {
@@ -920,16 +1139,34 @@ func synthJobs(r *hlib.Rand, n int) []job {
 	for _, c := range []string{
 		"0;", "10;", "10;0:10", "10;1:1,8:1", "10;1:1,2:5,8:1", "10;0:3,4:0", "12;0:0,4:4,8:0", "16;0:8{0:3,5:2},9:7",
 		"24;0:8,8:16{0:4,5:0,12:4}", "13;1:1,3:10{0:0,1:1}", "32;0:32{0:31}", "32;0:31{0:31}",
+		// sub-format without own gap filling, directly after a field, with a hole inside
+		"40;+8,F{+8,>8,+8},+8", "80;+8,F{+8,>8,+8},F{+8,>8,+8},+8", "56;+8,S{+8,F{+4,F{+4,>8,+4},+4}},+4",
+		"48;+8,T{+8,>16,z,+8},+8", "40;+8,A{F{+8,>8,+8}},+8",
+		// hole, then a zero-length value where the next field starts, last field ends the buffer
+		"40;+16,>8,z,+16", "64;+16,S{^24,z,z,+8},+32", "48;+8,F{+8,>8,z,+8},z,+16",
 	} {
 		jobs = append(jobs, job{path: "synth", format: "verif_c04", variant: c})
 	}
 	for i := 0; i < n; i++ {
-		total := int64(r.Range(0, 96))
-		if r.Intn(5) == 0 {
-			total = int64(r.Range(0, 40000))
+		if i%2 == 0 {
+			total := int64(r.Range(0, 96))
+			if r.Intn(5) == 0 {
+				total = int64(r.Range(0, 40000))
+			}
+			jobs = append(jobs, job{path: "synth", format: "verif_c04",
+				variant: fmt.Sprintf("%d;%s", total, fmtSynth(randItems(r, total, 0)))})
+			continue
+		}
+		items, _, maxStop := randScript(r, 0, 0)
+		total := maxStop // the last field ends the buffer
+		switch r.Intn(6) {
+		case 0:
+			total += int64(r.Range(1, 24)) // undecoded tail
+		case 1:
+			total = int64(r.Intn(int(maxStop) + 1)) // too short: failed decode, partial tree
 		}
 		jobs = append(jobs, job{path: "synth", format: "verif_c04",
-			variant: fmt.Sprintf("%d;%s", total, fmtSynth(randItems(r, total, 0)))})
+			variant: fmt.Sprintf("%d;%s", total, fmtSynth(items))})
 	}
 	return jobs
 }
